@@ -1,6 +1,7 @@
 #!/bin/sh
 # usage: harness/run_all.sh quick|thorough   runs every check in turn, prints one summary line each
 T="${1:-quick}"
+mkdir -p build
 for c in C01 C02 C03 C04 C05 C06 C07 C08 C09 C10 C11 C12 C13 C14 C15 C16 C17 C18 C19 C20; do
   s=$(date +%s)
   ./check $c --tier $T > build/run_$c.out 2>&1; rc=$?
